@@ -167,6 +167,9 @@ def make_q(seed_tuple, sidx):
     y[rng.random((n, na)) < rng.choice([0.3, 0.6, 1.0])] = np.nan
     modes = list(gen_modes(rng, n, na))
     cmode, cand, amode, annot = modes[int(rng.integers(len(modes)))]
+    if rng.random() < 0.3:       # the combination with two cooperating sites (sorted indices x matrix rows): index candidates in caller order x boolean matrix
+        cmode, cand, amode, annot = [m for m in modes if m[0] == "idx" and m[2] == "mat"][0]
+        cand = rng.permutation(np.asarray(cand))
     navail = None
     bs = int(rng.choice([1, 2, 3, n * na, n * na + 3]))
     napp = int(rng.choice([1, 1, 2, na]))
@@ -313,6 +316,11 @@ def run(ctx):
                 tags.add("matrix_row_without_annotator")
             if q["cmode"] == "idx" and q["amode"] == "mat" and list(q["cand"]) != sorted(q["cand"]):
                 tags.add("unsorted_candidates_with_matrix")
+            if res[0] == "unavailable_pair" and out.get("idx") is not None:
+                # the recorded finding explains only unavailable pairs inside a row that offers no annotator at all
+                badp = [(int(a), int(b)) for a, b in out["idx"] if not (0 <= a < A.shape[0] and 0 <= b < A.shape[1] and A[a, b])]
+                if badp and all(0 <= a < A.shape[0] and A[a].sum() == 0 for a, _ in badp):
+                    tags.add("unavailable_pair_in_row_without_annotator")
             rc["tags"] = sorted(tags)
             ctx.violation(name, res[0], res[1], rc, what=f"{name}: {res[1]}", tags=tags)
             continue
